@@ -135,6 +135,10 @@ func (md *Metadata) Validate() error {
 	// Aliases need to be validated here to make sure that the alias name does
 	// not contain any illegal characters.
 	dependencies := map[string]*Dependency{}
+	// A duplicate is reported only after every dependency has been validated:
+	// repository indexes tolerate duplicates, so that error must not hide
+	// another one.
+	var duplicate error
 	for _, dependency := range md.Dependencies {
 		if err := dependency.Validate(); err != nil {
 			return err
@@ -143,12 +147,12 @@ func (md *Metadata) Validate() error {
 		if dependency.Alias != "" {
 			key = dependency.Alias
 		}
-		if dependencies[key] != nil {
-			return ValidationErrorf("more than one dependency with name or alias %q", key)
+		if dependencies[key] != nil && duplicate == nil {
+			duplicate = ValidationErrorf("more than one dependency with name or alias %q", key)
 		}
 		dependencies[key] = dependency
 	}
-	return nil
+	return duplicate
 }
 
 func isValidChartType(in string) bool {
